@@ -789,6 +789,7 @@ func (t *tree) parseHeaderParam(token item) ast.Node {
 func Expr(str string) (node ast.Node, err error) {
 	var t = &tree{lex: lexExpr("", str)}
 	defer t.recover(&err)
+	defer t.lex.drain()
 	return t.parseExpr(0), err
 }
 
